@@ -96,3 +96,28 @@ for _p in ["C01", "C04", "C08", "C09", "C10", "C12", "C15"]:
         "trusted_base": TB_ENUM,
         "assumptions": [],
     }
+
+TB_FOLD = TB_COMMON + [
+    "hand-written control skeleton of the fold model (Model/Fold.v: evaluation order, short-circuiting, number ladders, image placeholder search) tied by the correspondence check; the ordered arm tables of fold_atom / fold_compound / fold_set / fold_statement, the empty-name guard and the verbatim shapes of the TryFoldInto impls, try_from_floats, new_*, to_image_*_with_placeholder and the Stamp / Punctuation side doors are regenerated / re-recognised on every run (T3f); lexical vocabulary lists (T2v)",
+    "Model/EnumParser.v side doors door_stamp / door_punctuation (shared with C04) for stamp and punctuation strings",
+    "f64 FromStr on arbitrary strings (sign, exponent, inf / nan) re-implemented over Flocq (Base/FloatDec2.v) and differentially checked; usize FromStr re-implemented in Base/Dec.v (proved against Coq's Decimal library)",
+    "std::collections::HashSet modelled as a duplicate-free list in insertion order (mk_set); set payloads compared up to order",
+]
+PROPS["C03"] = {
+    "props": [],
+    "run": ["Run/FoldRun.v"],
+    "tables": ["T1", "T2v", "T3", "T3f", "T4"],
+    "n_quick": 300,
+    "n_thorough": 3000,
+    "trusted_base": TB_FOLD,
+    "assumptions": [],
+}
+PROPS["C05F"] = {
+    "props": [],
+    "run": ["Run/FoldRun.v"],
+    "tables": ["T1", "T3", "T3f", "T4"],
+    "n_quick": 400,
+    "n_thorough": 6000,
+    "trusted_base": TB_FOLD,
+    "assumptions": [],
+}
